@@ -209,3 +209,28 @@ register(PropertySpec(
                  "`with alternative(...)`"],
     design_ref="DESIGN.md §2 C12",
 ))
+
+from . import predform
+
+register(PropertySpec(
+    id="C13",
+    title="predicate-form terms equal the explicit form and filter by type",
+    rules=[
+        Rule("SLOT-ALIGN", predform.rule_slot_align, 5,
+             "abstract run of update_domain_and_kwargs_from_args over positional lists with and without a leading "
+             "From(...): the k-th field value is bound to __init__ parameter k+1 (self = 0), the From slot not counted"),
+        Rule("DECL-FILTER", predform.rule_decl_filter, 4,
+             "the supplied domain is wrapped in a filter isinstance(v, <runtime class parameter>), the Variable is built "
+             "for that class over the filtered domain, and the runtime class (not the closure's decorated class) is "
+             "threaded from __new__ down"),
+        Rule("FIELD-EQ", predform.rule_field_eq, 3,
+             "properties_to_expression_tree builds one getattr(var, field) == value per given field, in symbolic mode, "
+             "conjoined with AND"),
+    ],
+    explanation="Decides the construction-time clauses: positional binding re-implemented by the library agrees with "
+                "Python's (finite abstract evaluation of the loop over scenario argument lists), the type filter uses "
+                "the class being constructed, and each given field becomes one equality. Not decided: equality of "
+                "results with the explicit form for nested terms (C02/C15).",
+    assumptions=["cls_args lists the parameters of __init__ with self first (update_cls_args)"],
+    design_ref="DESIGN.md §2 C13",
+))
